@@ -69,9 +69,15 @@ WaitingSign ==
 KeysOf(syls, f(_)) == FlattenKeys([i \in 1..Len(syls) |-> f(syls[i])])
 
 TwSyl(sy) == TypewriterKeysSyl(sy, alt)
+\* The sign also waits INSIDE a syllable (after the first consonant of a conjunct it is lifted again by hasanta / a fola key and
+\* waits for the next member).  pend[i][p] = according to the transcript a sign is waiting after the p-th key of syllable i:
+\* the harness probes the waiting-sign clauses at each such point on a context that has typed exactly the keys so far.
+StateBefore(i) == RunKeys(Idle, FlattenKeys([j \in 1..(i - 1) |-> TwSyl(w[j])]), On(o))
+PendAfter(i) == [p \in 1..Len(TwSyl(w[i])) |-> RunKeys(StateBefore(i), SubSeq(TwSyl(w[i]), 1, p), On(o)).pend # "none"]
 Emit == Len(w) = MaxSyl =>
     PrintT(<<"REPLAY", ToJson([mc |-> "MC_OldKar", o |-> o,
                                tw |-> [i \in 1..Len(w) |-> TypewriterKeysSyl(w[i], alt)],
                                un |-> [i \in 1..Len(w) |-> UnicodeKeysSyl(w[i])],
+                               pend |-> [i \in 1..Len(w) |-> PendAfter(i)],
                                model |-> un.buf])>>)
 =============================================================================
